@@ -76,6 +76,17 @@ fn main() {
         println!("{}", props::c15::obs_line(&props::c15::observe(pi)));
         return;
     }
+    if args[1] == "diag" {
+        // mmv diag <src-or-file>   (ad-hoc debugging aid: diagnostics of the VM compile entry point with their labels)
+        let src = if std::path::Path::new(&args[2]).exists() { std::fs::read_to_string(&args[2]).unwrap() } else { args[2].clone() };
+        let mut ctx = mimium_lang::ExecContext::new([].into_iter(), None, mimium_lang::Config::default());
+        ctx.prepare_compiler();
+        match ctx.get_compiler().unwrap().emit_bytecode(&src) {
+            Ok(_) => println!("accepted"),
+            Err(es) => es.iter().for_each(|e| println!("ERR {e}: {:?}", e.get_labels().iter().map(|(l, m)| format!("{}..{} {m}", l.span.start, l.span.end)).collect::<Vec<_>>())),
+        }
+        return;
+    }
     if args[1] == "run" {
         // mmv run <vm|wasm|both> <src-or-file> <n> [sched]   (ad-hoc debugging aid)
         let src = if std::path::Path::new(&args[3]).exists() { std::fs::read_to_string(&args[3]).unwrap() } else { args[3].clone() };
